@@ -51,11 +51,126 @@ LINK_GHOST = [
 
 LP_BOUND = "forall('k', implies(self.at[k] != null and pre(k, key(prefix)), klen(k) <= g_i), (self.at[k], pre(k, key(prefix))))"
 
+# ---------------------------------------------------------------------------------------------------------------------------
+# stack traversals (prefixes / items / values): every stored key is yielded exactly once.
+# ghost: g_done (paths of popped nodes), g_cov (for a key that has a node and is not done: index of the stack entry above it),
+#        g_yat (for a yielded key: its position in the yielded sequence), g_S0 (the stack right after the pop)
+def make_traversal(kind):
+    """contract of the stack traversals.  kind: 'prefixes' (yields the key), 'items' (yields (key, value)), 'values' (yields the value; the
+    stack holds bare nodes and the children are pushed with extend(children.values()))"""
+    pairs = kind != "values"
+    ND = "stack[%s][0]" if pairs else "stack[%s]"                      # node of a stack entry
+    P = ND + ".path"
+    SPELL = (" and key(stack[%s][1]) == " + P) if pairs else "%.0s%.0s"     # the entry's prefix spells its node's path
+    STACK_T = "Seq[Tuple[Ref[TrieDictNode],Seq[Tok]]]" if pairs else "Seq[Ref[TrieDictNode]]"
+    # key of the m-th yielded element
+    YK = {"prefixes": "key(%s[%s])", "items": "key(%s[%s][0])", "values": "g_keys[%s]"}[kind]
+    yk = (lambda seq, m: YK % m) if kind == "values" else (lambda seq, m: YK % (seq, m))
+    yval = {"prefixes": None, "items": "%s[%s][1]", "values": "%s[%s]"}[kind]
+    A_ = "node.children.items()" if pairs else "node.children.values()"
+    TKm = "dictkeyat(node.children, %s - len(g_S0))"
+    T_OF_K = "tokat(k, klen(node.path))"
+    HDR = "for (token, child) in node.children.items():" if pairs else "stack.extend(node.children.values())"
+    YIELD = "yield ..."
+    POP = "(node, prefix) = stack.pop()" if pairs else "node = stack.pop()"
+
+    def yielded(seq, bound):
+        c = "self.V[%s] and g_done[%s] and g_yat[%s] == m" % ((yk(seq, "m"),) * 3) if bound == "inv" else "self.V[%s]" % yk(seq, "m")
+        if yval:
+            c += " and %s == self.M[%s]" % (yval % (seq, "m"), yk(seq, "m"))
+        return "forall('m', implies(0 <= m and m < len(%s), %s), %s)" % (seq, c, "g_keys[m], %s[m]" % seq if kind == "values" else seq + "[m]")
+
+    outer = [
+        "Inv(self)",
+        "forall('m', implies(0 <= m and m < len(stack), self.N[%s]%s), stack[m])" % (ND % "m", SPELL % ("m", "m")),
+        "forall('m m2', implies(0 <= m and m < m2 and m2 < len(stack), not pre(%s, %s) and not pre(%s, %s)), (stack[m], stack[m2]))"
+        % (P % "m", P % "m2", P % "m2", P % "m"),
+        "forall('k', implies(self.at[k] != null and not g_done[k], 0 <= g_cov[k] and g_cov[k] < len(stack) and pre(%s, k)), self.at[k])" % (P % "g_cov[k]"),
+        "forall('k m', implies(g_done[k] and 0 <= m and m < len(stack), not pre(%s, k)), (g_done[k], stack[m]))" % (P % "m"),
+        "forall('k', implies(g_done[k], self.at[k] != null), g_done[k])",
+        yielded("g_yielded", "inv"),
+        "forall('k', implies(self.V[k] and g_done[k], 0 <= g_yat[k] and g_yat[k] < len(g_yielded) and %s == k), g_yat[k], self.V[k])" % yk("g_yielded", "g_yat[k]"),
+    ]
+    pushed = [
+        # every pushed entry is a child of the popped node (and its prefix spells the child's path)
+        "assert_(forall('m', implies(len(g_S0) <= m and m < len(stack), haschild(node, %s) and %s == child(node, %s)), stack[m]))"
+        % (TKm % "m", ND % "m", TKm % "m"),
+        "assert_(forall('m', implies(len(g_S0) <= m and m < len(stack), self.N[%s] and %s == snoc(node.path, %s)%s), stack[m]))"
+        % (ND % "m", P % "m", TKm % "m", SPELL % ("m", "m")),
+        "assert_(forall('m', implies(0 <= m and m < len(g_S0), self.N[%s]%s and not pre(%s, node.path) and not pre(node.path, %s)), stack[m]))"
+        % (ND % "m", SPELL % ("m", "m"), P % "m", P % "m"),
+        "assert_(forall('m m2', implies(len(g_S0) <= m and m < m2 and m2 < len(stack), %s != %s), (stack[m], stack[m2])))" % (TKm % "m", TKm % "m2"),
+    ]
+    cover = [
+        # a key below the popped node goes through one of its children: that child's stack entry will cover it
+        "assert_(forall('k', implies(spre(node.path, k) and self.at[k] != null, self.at[snoc(node.path, %s)] != null"
+        " and pre(snoc(node.path, %s), k)), self.at[k]))" % (T_OF_K, T_OF_K),
+        "assert_(forall('k', implies(spre(node.path, k) and self.at[k] != null, 0 <= dictpos(node.children, %s)"
+        " and dictpos(node.children, %s) < len(%s) and dictkeyat(node.children, dictpos(node.children, %s)) == %s), self.at[k]))"
+        % (T_OF_K, T_OF_K, A_, T_OF_K, T_OF_K),
+        "g_cov = maplam('k', ite(spre(node.path, k), len(g_S0) + dictpos(node.children, %s), g_cov[k]))" % T_OF_K,
+    ]
+    # the same, without the ghost witnesses (what a caller sees)
+    if kind == "values":
+        public = ["forall('m', implies(0 <= m and m < len(result), result[m] is not NULL and exists('k', self.V[k] and result[m] == self.M[k], self.V[k])), result[m])",
+                  "forall('k', implies(self.V[k], exists('m', 0 <= m and m < len(result) and result[m] == self.M[k], result[m])), self.V[k])",
+                  ]
+    else:
+        public = ["forall('k', implies(self.V[k], exists('m', 0 <= m and m < len(result) and %s == k, result[m])), self.V[k])" % yk("result", "m")]
+    types = dict(COMMON_TYPES, stack=STACK_T, g_S0=STACK_T, prefix="Seq[Tok]", child=NODE, g_done="Map[Key,Bool]", g_cov="Map[Key,Int]",
+                 g_yat="Map[Key,Int]", g_c="Int", g_keys="Map[Int,Key]")
+    c = {
+        "types": types,
+        "requires": ["Inv(self)"],
+        "ensures": [
+            # every yielded element is a stored key (with its value), every stored key is yielded, none twice
+            yielded("result", "post"),
+            "forall('k', implies(self.V[k], 0 <= g_yat[k] and g_yat[k] < len(result) and %s == k), self.V[k])" % yk("result", "g_yat[k]"),
+            "forall('m m2', implies(0 <= m and m < m2 and m2 < len(result), %s != %s), %s)" % (yk("result", "m"), yk("result", "m2"),
+                                                                                                "(g_keys[m], g_keys[m2])" if kind == "values" else "(result[m], result[m2])"),
+        ],
+        "ghost_entry": ["g_done = constmap('Key', False)", "g_cov = constmap('Key', 0)"],
+        "loops": {1: {"invariant": outer}},
+        "public_ensures": public,
+        "ghost_after": {
+            POP: [
+                # the remaining entries are incomparable with the popped node; nothing done so far lies below the popped node
+                "assert_(forall('m', implies(0 <= m and m < len(stack), self.N[%s]%s and not pre(%s, node.path) and not pre(node.path, %s)), stack[m]))"
+                % (ND % "m", SPELL % ("m", "m"), P % "m", P % "m"),
+                "assert_(forall('k', implies(g_done[k], not pre(node.path, k)), g_done[k]))",
+                "g_done = store(g_done, node.path, True)", "g_S0 = stack"],
+            HDR: pushed,
+        },
+        "ghost_before": {
+            YIELD: ["g_yat = store(g_yat, node.path, len(g_yielded))"] + (["g_keys = store(g_keys, len(g_yielded), node.path)"] if kind == "values" else []),
+            HDR: cover,
+        },
+        "asserts": {
+            "continue": [
+                # a node without children has no descendants: nothing below it is left uncovered
+                "forall('k', implies(spre(node.path, k) and self.at[k] != null, self.at[snoc(node.path, %s)] != null), self.at[k])" % T_OF_K,
+                "forall('k', implies(self.at[k] != null, not spre(node.path, k)), self.at[k])",
+            ],
+        },
+    }
+    if pairs:
+        c["loops"][2] = {"index": "g_c", "invariant": [
+            "len(stack) == len(g_S0) + g_c",
+            "forall('m', implies(0 <= m and m < len(g_S0), stack[m] == g_S0[m]), stack[m])",
+            "forall('m', implies(len(g_S0) <= m and m < len(stack), stack[m][0] == %s[m - len(g_S0)][1]"
+            " and stack[m][1] == prefix + [%s[m - len(g_S0)][0]]), stack[m])" % (A_, A_),
+        ]}
+    c["ensures"] += c.pop("public_ensures")
+    c["yields"] = {"prefixes": "Seq[Tok]", "items": "Tuple[Seq[Tok],Val]", "values": "Val"}[kind]
+    c["returns"] = "Seq[%s]" % c["yields"]
+    return c
+
+
 MODULE = {
     "file": "ural/classes/trie_dict.py",
     "aliases": {"Node": NODE},
     "consts": {"NULL": ("Val", "NULL")},
-    "bound": {"n": NODE, "k": "Key", "j": "Key", "t": "Tok", "m": "Int"},
+    "bound": {"n": NODE, "k": "Key", "j": "Key", "t": "Tok", "m": "Int", "m2": "Int"},
     "classes": {
         "TrieDictNode": {
             "fields": {"children": "Opt[Dict[Tok,Ref[TrieDictNode]]]", "value": "Val", "counter": "Int"},
@@ -79,9 +194,6 @@ MODULE = {
     },
     "library": {
         # stack traversals: not under a deductive contract (bounded in bcheck.c10); callers only learn the result type
-        "TrieDict.values": {"params": ["self"], "types": {"self": "Ref[TrieDict]"}, "returns": "Obj", "ensures": []},
-        "TrieDict.items": {"params": ["self"], "types": {"self": "Ref[TrieDict]"}, "returns": "Obj", "ensures": []},
-        "TrieDict.prefixes": {"params": ["self"], "types": {"self": "Ref[TrieDict]"}, "returns": "Obj", "ensures": []},
     },
     "functions": {
         "TrieDict.__init__": {
@@ -219,6 +331,14 @@ MODULE = {
             "requires": ["Inv(self)"],
             "returns": "Int",
             "ensures": ["result == card(self)"],
+        },
+        "TrieDict.prefixes": make_traversal("prefixes"),
+        "TrieDict.items": make_traversal("items"),
+        "TrieDict.values": make_traversal("values"),
+        "TrieDict.__iter__": {
+            "types": COMMON_TYPES, "requires": ["Inv(self)"], "returns": "Seq[Tuple[Seq[Tok],Val]]",
+            # iterating a TrieDict = items(): the caller-visible part of its contract
+            "ensures": [e for e in make_traversal("items")["ensures"] if "g_" not in e],
         },
     },
 }
